@@ -2,7 +2,7 @@
    (Model/Sim.v); only [exact] and [Print Assumptions] here.  The trace-level predicate
    [death_ok] / [killer_ok_from] of Model/SimProtocol.v is evaluated on every real trace. *)
 From Coq Require Import List ZArith Bool.
-From SR Require Import Base.CaseLib Base.NumOps Model.Turn Model.Sim Model.SimProtocol Proofs.SimProofs Proofs.SimDeath.
+From SR Require Import Base.CaseLib Base.NumOps Model.Turn Model.Sim Model.SimProtocol Proofs.SimProofs Proofs.SimDeath Proofs.SimDeathTrace.
 Import ListNotations.
 
 (* what a death check kills: dead units always, units held in limbo only at the turn-end check *)
@@ -50,6 +50,16 @@ Theorem C08_dead_inserts_dropped : forall cfg fuel s t s1, pop s = Some (t, s1) 
   chars s <> [] -> enemies s <> [] -> droppable s1 t = true -> drain cfg (S fuel) s = drain cfg fuel s1.
 Proof. exact drain_drops. Qed.
 Print Assumptions C08_dead_inserts_dropped.
+
+(* the trace-level statement, for every configuration, every content script set and every run
+   length: in the trace of every run that ends (Termination or an error return), a unit is announced
+   dead at most once and, from its announcement on, it is absent from every turn order snapshot
+   (turn start, turn reset), every sample of the living lists and the turn order, every turn-end
+   snapshot, is never the unit whose turn starts, and starts no action and no insert *)
+Theorem C08_trace_level : forall cfg fuel s, start cfg fuel = Stop s \/ start cfg fuel = Err s ->
+  death_ok (trace s) = true.
+Proof. exact death_trace. Qed.
+Print Assumptions C08_trace_level.
 
 (* non-vacuity and the trace predicate on a model run with a kill *)
 Theorem C08_nonvacuous :
